@@ -230,10 +230,9 @@ class InterfaceLDM3:
         if self.ldm_service.ldm_maintenance.data_containers.exists("dataObjectID", data_provider.data_object_id):
             # Remove the stored object itself (LDMService.del_provider_data only touches the
             # registry of data providers, which a deletion of data must leave alone)
-            stored_object = self.ldm_service.ldm_maintenance.get_provider_data(
+            # By identifier, not by value: a concurrent update must not make the deletion miss.
+            self.ldm_service.ldm_maintenance.data_containers.remove_by_id(
                 data_provider.data_object_id)
-            if stored_object is not None:
-                self.ldm_service.ldm_maintenance.del_provider_data(stored_object)
             return DeleteDataProviderResp(
                 data_provider.application_id,
                 data_provider.data_object_id,
